@@ -78,10 +78,13 @@ def do_event(mesh, lay, op, with_nbrs=True, grade_consts=None):
         if kind in ("dorfler_iso", "dorfler_aniso"):
             ev["k"] = "dorfler"
             ev["kind"] = kind
-            ev["eta"] = op[1]
             ev["theta"] = op[2]
+            if len(op) > 3:
+                ev["etai"] = op[1]
+                ev["th2"] = list(op[3]["th2"])
+                ev["judge_marking"] = bool(op[3]["judge"])
             with AxisRecorder(lay) as rec:
-                ml.apply_op(mesh, lay, op)
+                ml.apply_op(mesh, lay, op[:3])
         else:
             ml.apply_op(mesh, lay, op)
     except RecursionError as ex:
